@@ -220,7 +220,7 @@ func genProg(r *rng, o *out, do func(string) string) {
 
 // ------------------------------------------------------------------ wire
 
-var beginStrings = []string{"FIX.4.0", "FIX.4.1", "FIX.4.2", "FIX.4.3", "FIX.4.4", "FIXT.1.1"}
+var codecBeginStrings = []string{"FIX.4.0", "FIX.4.1", "FIX.4.2", "FIX.4.3", "FIX.4.4", "FIXT.1.1"}
 var appDicts = []string{"FIX40", "FIX41", "FIX42", "FIX43", "FIX44", "FIX50", "FIX50SP1", "FIX50SP2"}
 
 func transportFor(app string) string {
@@ -363,7 +363,7 @@ func genWire(r *rng, o *out, do func(string) string) {
 			fields[k].tag = "0" + fields[k].tag
 		}
 	}
-	wire := wireEncode(beginStrings[r.intn(len(beginStrings))], fields)
+	wire := wireEncode(codecBeginStrings[r.intn(len(codecBeginStrings))], fields)
 	seen := map[string]bool{}
 	emitDdefs(mode, wire, seen, do)
 	res := do("parse " + mode + " " + hx(wire))
